@@ -36,6 +36,7 @@ func init() {
 		Assumptions: []string{"state changes inside the key object are C17's subject; writes of a decoder into its input are C18's subject; both are only noted here"},
 		Run:         runC20,
 		Replay: func(c *engine.Ctx, raw json.RawMessage) {
+			engine.PinMapOrder()
 			var cs c20Case
 			unmarshalCase(raw, &cs)
 			c20Prev, c20PrevC = nil, nil
@@ -59,6 +60,7 @@ func init() {
 }
 
 func runC20(c *engine.Ctx) {
+	engine.PinMapOrder()
 	depth := 1
 	if c.Thorough() {
 		depth = 2
